@@ -1,1 +1,31 @@
 //! verification hook (cfg pendulum_project_ntpd_rs_verif only)
+
+// --- BEGIN C42/C43 (PTP estimator / controller)
+#![allow(missing_docs)]
+pub use crate::estimator::{EstimatorState, UncertainValue};
+pub use crate::filter::{LinkFilter, LinkFilterConfig};
+pub use crate::estimator::verif_hook as est;
+pub use crate::filter::verif_hook as filt;
+use crate::storage::StateMutex;
+use crate::{AlgoError, KalmanController, KalmanLink, KalmanStorage};
+use statime_base::{Clock, LinkId};
+
+/// copy of the controller's current filter (estimator + link bookkeeping)
+pub fn filter_clone<S: KalmanStorage<C>, C: Clock>(c: &KalmanController<S, C>) -> LinkFilter<S> {
+    c.state.with_ref(|s| s.filter.clone())
+}
+
+/// ids of the steered clocks in the controller's own order (index 0 = system clock)
+pub fn steered_clock_ids<S: KalmanStorage<C>, C: Clock>(c: &KalmanController<S, C>) -> std::vec::Vec<statime_base::ClockId> {
+    c.state.with_ref(|s| s.clocks.iter().map(|i| i.id).collect())
+}
+
+pub fn link_id<R: AsRef<KalmanController<S, C>>, S: KalmanStorage<C>, C: Clock>(l: &KalmanLink<R, S, C>) -> LinkId {
+    l.link_id
+}
+
+/// the private steering step on its own (what `KalmanLink::measurement` runs after the filter update)
+pub fn steer_clocks<S: KalmanStorage<C>, C: Clock>(c: &KalmanController<S, C>) -> Result<(), AlgoError> {
+    c.state.with_mut(|s| s.steer_clocks())
+}
+// --- END C42/C43
